@@ -228,7 +228,8 @@ func (w *W) convert(v Value, from, to types.Type) Value {
 		if isFloat(tu) {
 			t := v.(*smt.Term)
 			if !t.IsConst() {
-				w.unsupported("symbolic int to float conversion")
+				// floats are concrete here: decide the integer's value on this path
+				t = w.Concretize(t, "int to float conversion")
 			}
 			if fs {
 				return FloatV{float64(t.Int64())}
